@@ -136,6 +136,11 @@ class StakingWorld:
             _, u, en, locked = op
             assert vm.call(A[OWNER], self.efact, "setUserEnergy", [A[u], top_u(en), top_u(locked)]).ok
             return None
+        if k == "Upgrade":
+            # contract upgrade by the owner: must change nothing on a configured farm (environment step for the models)
+            r = vm.call(A[OWNER], self.sc, "upgrade", [])
+            assert r.ok, r
+            return None
         pre_pool = self.last["pool"]
         pre_cfg = dict(self.shadow)
         pays = lambda ps: [(FARM, n, x) for (n, x) in ps]
